@@ -431,6 +431,7 @@ where
                 match task_result {
                     // Blockstore already has the data so return them to the user
                     TaskResult::Get(query_id, _, Ok(Some(data))) => {
+                        self.query_abort_handle.remove(&query_id);
                         return Poll::Ready(ToSwarm::GenerateEvent(Event::GetQueryResponse {
                             query_id,
                             data: data.clone(),
@@ -441,12 +442,14 @@ where
                     //
                     // Connection handlers will be informed via `update_handlers` about the new items in wantlist.
                     TaskResult::Get(query_id, cid, Ok(None)) => {
+                        self.query_abort_handle.remove(&query_id);
                         self.wantlist.insert(cid);
                         self.cid_to_queries.entry(cid).or_default().push(query_id);
                     }
 
                     // Blockstore error
                     TaskResult::Get(query_id, _, Err(e)) => {
+                        self.query_abort_handle.remove(&query_id);
                         return Poll::Ready(ToSwarm::GenerateEvent(Event::GetQueryError {
                             query_id,
                             error: e.into(),
